@@ -20,15 +20,22 @@ Record chk_info := mkinfo {
   k_min : Z; k_max : Z;          (* MinTs, MaxTs: the claimed hull *)
   k_root : option (list rec);    (* None: IdxRoot.IndexId == 0 *)
   k_last : Z;                    (* lastRec *)
-  k_bad : bool                   (* idxCorrupted *)
+  k_bad : bool;                  (* idxCorrupted *)
+  k_partial : bool               (* HullPartial: the info was created by a write notification for a chunk that already had
+                                    records, its hull covers the written records only; until rebuildIndex has scanned the
+                                    chunk it is REPORTED (getRecordsInfo: SyncChunks, GetRecordsInfo) with an unlimited
+                                    time range. Never set in the variant without the repair C02-write-after-index-loss *)
 }.
+(* chkInfo.getRecordsInfo: the time range the index reports for the chunk *)
+Definition k_rmin (k : chk_info) : Z := if k_partial k then min_int64 else k_min k.
+Definition k_rmax (k : chk_info) : Z := if k_partial k then max_int64 else k_max k.
 Definition cindex := list chk_info.        (* sortedChunks of the partition; [] = partition unknown *)
 
 Definition hull_update (k : chk_info) (mn mx : Z) : chk_info :=   (* chkInfo.update *)
   mkinfo (k_id k) (if mn <? k_min k then mn else k_min k) (if k_max k <? mx then mx else k_max k)
-         (k_root k) (k_last k) (k_bad k).
+         (k_root k) (k_last k) (k_bad k) (k_partial k).
 Definition make_corrupted (k : chk_info) : chk_info :=
-  mkinfo (k_id k) (k_min k) (k_max k) None (k_last k) true.
+  mkinfo (k_id k) (k_min k) (k_max k) None (k_last k) true (k_partial k).
 
 Fixpoint find_chunk (ci : cindex) (cid : Z) : option chk_info :=
   match ci with
@@ -57,15 +64,15 @@ Definition on_write_chunk (skip_lock new_chk : bool) (l : chk_info) (first lastr
     match k_root l with
     | None =>
         if sparse_space * 20 <? u32_sub lastr (k_last l) then (make_corrupted l, WCorrupted)
-        else (mkinfo (k_id l) (k_min l) (k_max l) (Some (flat_add [] p0 p1)) lastr false, WOk)
+        else (mkinfo (k_id l) (k_min l) (k_max l) (Some (flat_add [] p0 p1)) lastr false (k_partial l), WOk)
     | Some rs =>
-        (mkinfo (k_id l) (k_min l) (k_max l) (Some (flat_add rs p0 p1)) lastr false, WOk)
+        (mkinfo (k_id l) (k_min l) (k_max l) (Some (flat_add rs p0 p1)) lastr false (k_partial l), WOk)
     end.
 
 (* cindex.onWrite(src, firstRec, lastRec, {cid, mn, mx}): the partition is unknown, or its last chunk is
    another one => a fresh info (new chunk); otherwise the last info's hull is extended *)
-Definition ci_on_write (skip_lock : bool) (ci : cindex) (first lastr cid mn mx : Z) : cindex * wres :=
-  let fresh := mkinfo cid mn mx None 0 false in
+Definition ci_on_write (fix_partial skip_lock : bool) (ci : cindex) (first lastr cid mn mx : Z) : cindex * wres :=
+  let fresh := mkinfo cid mn mx None 0 false (fix_partial && (0 <? first)) in
   match ci with
   | [] => let '(k', r) := on_write_chunk skip_lock true fresh first lastr mn mx in ([k'], r)
   | _ =>
@@ -165,7 +172,7 @@ Section Rebuild.
         if alive then ci
         else
           let '(ri, root) := rebuild_int data in
-          replace_chunk ci (hull_update (mkinfo (k_id k) (k_min k) (k_max k) root 0 false) (fst ri) (snd ri))
+          replace_chunk ci (hull_update (mkinfo (k_id k) (k_min k) (k_max k) root 0 false false) (fst ri) (snd ri))
     end.
 End Rebuild.
 
@@ -173,9 +180,9 @@ End Rebuild.
         known ones keep their info; infos of chunks that no longer exist are dropped ---- *)
 Definition light_fill (cid : Z) (data : list Z) : chk_info :=
   match data with
-  | [] => mkinfo cid max_int64 0 None 0 false
+  | [] => mkinfo cid max_int64 0 None 0 false false
   | ts1 :: _ => let ts2 := last data ts1 in
-                if ts2 <? ts1 then mkinfo cid ts2 ts1 None 0 false else mkinfo cid ts1 ts2 None 0 false
+                if ts2 <? ts1 then mkinfo cid ts2 ts1 None 0 false false else mkinfo cid ts1 ts2 None 0 false false
   end.
 Definition ci_sync (ci : cindex) (cks : list (Z * list Z)) : cindex :=
   map (fun ck => match find_chunk ci (fst ck) with Some k => k | None => light_fill (fst ck) (snd ck) end) cks.
@@ -183,8 +190,11 @@ Definition ci_sync (ci : cindex) (cks : list (Z * list Z)) : cindex :=
 (* a clean shutdown and start: close() writes the infos to cindex.dat (exported fields only: id, hull, root;
    makeCorrupted has emptied the root of a corrupted info) and init() loads them, so lastRec and the corrupted
    flag start from zero *)
-Definition ci_restart (ci : cindex) : cindex :=
-  map (fun k => mkinfo (k_id k) (k_min k) (k_max k) (if k_bad k then None else k_root k) 0 false) ci.
+Definition restart_info (k : chk_info) : chk_info :=
+  if k_partial k then mkinfo (k_id k) (k_min k) (k_max k) None 0 true true   (* the mark is saved; a loaded marked info is made
+                                                                               corrupted again, so that writes ask for its rebuild *)
+  else mkinfo (k_id k) (k_min k) (k_max k) (if k_bad k then None else k_root k) 0 false false.
+Definition ci_restart (ci : cindex) : cindex := map restart_info ci.
 
 (* cindex.readData: None = error (corrupted / no index) *)
 Definition ci_read_data (ci : cindex) (cid : Z) : option (list rec) :=
